@@ -77,7 +77,7 @@ M = [
  ("c14_reject_61444", ["C14", "C02", "C16"], S+"polynomial.rs", "        if t < K * Q {", "        if t < K * Q - 1 {"),
  # ---- C15
  ("c15_ignore_last_seed_byte_bit", ["C15"], S+"falcon.rs", "    pub(crate) fn gen_b0(seed: [u8; 32]) -> [Polynomial<i16>; 4] {\n", "    pub(crate) fn gen_b0(seed: [u8; 32]) -> [Polynomial<i16>; 4] {\n        let mut seed = seed;\n        seed[31] &= 0x7f;\n"),
- ("c15_thread_rng_in_keygen", ["C15"], S+"falcon.rs", "    pub(crate) fn gen_b0(seed: [u8; 32]) -> [Polynomial<i16>; 4] {\n", "    pub(crate) fn gen_b0(seed: [u8; 32]) -> [Polynomial<i16>; 4] {\n        let mut seed = seed;\n        if seed[0] == 0x5a {\n            seed[1] ^= thread_rng().gen::<u8>();\n        }\n"),
+ ("c15_stack_address_dependence", ["C15"], S+"falcon.rs", "    pub(crate) fn gen_b0(seed: [u8; 32]) -> [Polynomial<i16>; 4] {\n", "    pub(crate) fn gen_b0(seed: [u8; 32]) -> [Polynomial<i16>; 4] {\n        let mut seed = seed;\n        seed[31] ^= ((&seed as *const [u8; 32] as usize) >> 13) as u8 & 1;\n"),
  # ---- C17
  ("c17_i32_floor_instead_of_round", ["C17", "C04"], S+"math.rs", "        let k_ntt = quotient.map(|f| U32Field::new(f.re.round() as i32)).fft();", "        let k_ntt = quotient.map(|f| U32Field::new(f.re.floor() as i32)).fft();"),
 ]
